@@ -165,7 +165,7 @@ fn deromaniser_case(kind: usize, ws: &[CW], a: &mut Acc) {
 pub fn run() -> i32 {
     let mut r = Report::new("C15");
     let thorough = r.thorough();
-    r.rule = "romaniser sets of one line (thorough: every ordered pair of lines, and the comma-list form of each pair) over inputs {a, a:[+long], a:[+stress], a:[+secstress], a:[+stress, -secstress], V, V:[+stress], V:[-sec.stress], [+nasal], ta, $} x replacements {Q, QQ, *, a unicode escape, a named escape, +q, +@{macron}}; x 5 rule lists x every word of W(I5,3) with and without stress (long segments included): the printed word must equal the default rendering of the structural result rewritten by a reference romaniser, both through run() and through the renderer alone; every group letter with a parameter (each own feature repeated / flipped, four foreign features) as romaniser input on the 365 base phones against the bit model; romaniser inputs `a`/`V` with a tone AND one of four length conditions on toned, stressed words (equal to the tone-only alias where the length condition holds, to the default rendering where it does not); deromanisers {Q > a, QQ > a:[+long], Z > ta, X > a:[+stress], S > a:[+secstress], Y > ta:[+long]n, W > a:[+long]t} on W(I5,4): run(R, encode(w), into=D) == run(R, w). Non-trivial = the alias rewrote the rendering.".into();
+    r.rule = "romaniser sets of one line (thorough: every ordered pair of lines, and the comma-list form of each pair) over inputs {a, a:[+long], a:[+stress], a:[+secstress], a:[+stress, -secstress], V, V:[+stress], V:[-sec.stress], [+nasal], ta, $} x replacements {Q, QQ, *, a unicode escape, a named escape, +q, +@{macron}}; x 5 rule lists x every word of W(I5,3) with and without stress (long segments included): the printed word must equal the default rendering of the structural result rewritten by a reference romaniser, both through run() and through the renderer alone; every group letter with a parameter (each own feature repeated / flipped, four foreign features) and every one-feature matrix `[±F]`, `C:[±F]` for all 26 features as romaniser input on the 365 base phones against the bit model; romaniser inputs `a`/`V` with a tone AND one of four length conditions on toned, stressed words (equal to the tone-only alias where the length condition holds, to the default rendering where it does not); deromanisers {Q > a, QQ > a:[+long], Z > ta, X > a:[+stress], S > a:[+secstress], Y > ta:[+long]n, W > a:[+long]t} on W(I5,4): run(R, encode(w), into=D) == run(R, w). Non-trivial = the alias rewrote the rendering.".into();
     r.assumptions.push("`+` only on segments that are base phones (inventory p t a i n); tone-matching aliases only through a relation between alias variants (tone+length vs tone-only vs none): the manual does not say what happens to the tones of unmatched syllables".into());
     let ws = words(3, true);
     let pool = rom_pool();
@@ -207,6 +207,12 @@ pub fn run() -> i32 {
             glines.push((format!("{}:[{}{}] > Q", g, if v { "+" } else { "-" }, model::FEATS[f].0), want));
         }
     }
+    // bare matrices with one feature of every kind (root, manner, laryngeal and the place features, whose sub-node may be absent:
+    // an absent sub-node matches neither value) and IPA + one feature
+    for (f, ft) in model::FEATS.iter().enumerate() { for v in [true, false] {
+        glines.push((format!("[{}{}] > Q", if v { "+" } else { "-" }, ft.0), vec![(f, v)]));
+        glines.push((format!("C:[{}{}] > Q", if v { "+" } else { "-" }, ft.0), if f == 2 { vec![(2, v)] } else { vec![(2, false), (f, v)] }));
+    } }
     let mut tg = Acc::default();
     par_fold(glines.len(), 1, Acc::default, |i, a| {
         let (line, want) = &glines[i];
